@@ -285,7 +285,7 @@ def explore_config(ast, probes, table, resolver, R0, K, L, alphabet, wb, max_pat
         else:
             differs = eng.check([], 'witness') if same is False else eng.check([z3.Not(same)], 'result-differs')
             if differs:
-                if len(cex) < 12:
+                if len(cex) < 6:
                     cex.append(model_words(eng.model(), ws + [pw]))
                 # is every such input explained by the known deviations?
                 acc = sym.disj(alts)
@@ -323,6 +323,13 @@ def analyse(job):
     g = job['grammar']
     probes = job.get('probes', {})
     text = gram.print_grammar(g)
+    t_start = time.time()
+    res = _analyse(job, g, probes, text)
+    res['elapsed_s'] = round(time.time() - t_start, 1)
+    return res
+
+
+def _analyse(job, g, probes, text):
     res = {'text': text, 'status': None, 'violations': [], 'inconclusive': [], 'paths': 0,
            'queries': {}, 'solver_s': 0.0, 'validated': 0, 'region': [], 'cex_checked': 0,
            'nontrivial': False, 'sites': [], 'events': []}
@@ -391,7 +398,7 @@ def analyse(job):
                     all_cex.append((wb, c))
                 for c in r['cex']:
                     all_cex.append((wb, c))
-                for c in r['witnesses'][:10]:
+                for c in r['witnesses'][:4]:
                     all_wit.append((wb, c))
         res['events'] = sorted(events)
         for k, v in stats.queries.items():
